@@ -78,8 +78,19 @@ pub fn gen_prog(rng: &mut Rng) -> Vec<u8> {
     p.extend_from_slice(&[0x3e, rng.u8(), 0xe0, 0x05]);                                                // TIMA
     p.extend_from_slice(&[0x3e, tac, 0xe0, 0x07]);                                                     // TAC
   }
-  let ie = if timer { *rng.pick(&[0x04u8, 0x04, 0x04, 0x0c, 0x00]) } else { *rng.pick(&[0x00u8, 0x08, 0x10]) };
+  let mut ie = if timer { *rng.pick(&[0x04u8, 0x04, 0x04, 0x0c, 0x00]) } else { *rng.pick(&[0x00u8, 0x08, 0x10]) };
+  // LCD interrupt sources: STAT enables, LYC (the run starts at LY=144, dot 0), VBlank/STAT bits of IE
+  let lcd = rng.chance(1, 2);
+  let mut stat_en = 0u8;
+  if lcd {
+    stat_en = *rng.pick(&[0x08u8, 0x10, 0x20, 0x40, 0x28, 0x48, 0x78, 0x00]);
+    p.extend_from_slice(&[0x3e, stat_en, 0xe0, 0x41]);   // STAT
+    p.extend_from_slice(&[0x3e, *rng.pick(&[144u8, 145, 146, 147, 148, 150, 153, 0, 1, 2, 5]), 0xe0, 0x45]);     // LYC
+    ie |= *rng.pick(&[0x02u8, 0x02, 0x03, 0x01, 0x00]);
+  }
   p.extend_from_slice(&[0x3e, ie, 0xe0, 0xff]);                 // IE
+  // something that will wake a HALT within a line or so: the running timer, or a STAT mode-0/mode-2 interrupt
+  let waker = (timer && ie & 4 != 0) || (ie & 2 != 0 && stat_en & 0x28 != 0);
   if rng.chance(2, 3) { p.push(0xfb); }                          // EI
   let nblocks = 3 + rng.below(14);
   let mut hl_incs = 0;
@@ -92,7 +103,7 @@ pub fn gen_prog(rng: &mut Rng) -> Vec<u8> {
       4 | 5 => { let n = 1 + rng.below(6); gen_alu(rng, &mut p, n); }
       6 => p.push(*rng.pick(&[0xfbu8, 0xf3, 0xfb])),
       7 => { p.extend_from_slice(&[0x3e, *rng.pick(&[0x04u8, 0x04, 0x08, 0x10, 0x1c]), 0xe0, 0x0f]); } // request through IF
-      8 => { if timer && ie & 4 != 0 { p.push(0x76); } else { p.push(0x00); } }                        // HALT (woken by the timer)
+      8 => { if waker { p.push(0x76); } else { p.push(0x00); } }                                        // HALT (woken by the timer / a STAT mode interrupt)
       9 => { p.extend_from_slice(&[0x3e, *rng.pick(&[0xc0u8, 0xd0, 0xc1]), 0xe0, 0x46, 0x06, 1 + rng.below(60) as u8, 0x05, 0x20, 0xfd]); } // OAM DMA + delay
       10 => {                                                                                           // JP cc over NOPs
         let k = 1 + rng.below(3) as u16;
@@ -104,7 +115,7 @@ pub fn gen_prog(rng: &mut Rng) -> Vec<u8> {
       _ => { let k = 1 + rng.below(2) as u8; p.extend_from_slice(&[*rng.pick(&[0x20u8, 0x28, 0x30, 0x38, 0x18]), k]); for _ in 0..k { p.push(0x00); } } // JR cc over NOPs
     }
   }
-  if timer && ie & 4 != 0 && rng.chance(2, 3) { p.extend_from_slice(&[0x76, 0x18, 0xfd]); }           // L: HALT ; JR L
+  if waker && rng.chance(2, 3) { p.extend_from_slice(&[0x76, 0x18, 0xfd]); }                           // L: HALT ; JR L
   else if rng.chance(1, 4) { p.extend_from_slice(&[0x10, 0x00, 0x18, 0xfc]); }                         // L: STOP ; JR L
   else { p.extend_from_slice(&[0x00, 0x18, 0xfd]); }                                                   // L: NOP ; JR L
   p
@@ -116,10 +127,10 @@ fn run_prog(name: &str, prog: &[u8], init: [u16; 4], steps: usize, w: &mut dyn W
   for _ in 0..steps {
     core.update();
     let div = core.memory.io.timer.verif_state().0 & 0xffff;
-    t.push(format!("{},{},{},{},{},{},{},{},{},{},{},{},{}", div, { core.registers.cycles }, core.last_block_cycle_length,
+    t.push(format!("{},{},{},{},{},{},{},{},{},{},{},{},{},{},{}", div, { core.registers.cycles }, core.last_block_cycle_length,
       core.memory.io.video.get_ly(), { core.registers.ip }, { core.registers.sp }, { core.registers.af }, { core.registers.bc },
       { core.registers.de }, { core.registers.hl }, ime_code(&core.interrupts_enabled), run_code(&core.run_state),
-      core.memory.io.interrupt_flag.as_u8()));
+      core.memory.io.interrupt_flag.as_u8(), core.memory.io.video.get_lcd_status(), core.memory.io.video.get_frames_completed()));
   }
   writeln!(w, "{} prog={} init={},{},{},{} steps={} | t={}", name, hex(prog), init[0], init[1], init[2], init[3], steps, t.join(";")).unwrap();
 }
